@@ -552,7 +552,10 @@ def view_cases(req):
                      os.path.join(root, 'd2', 'sub', 'o2.txt'),
                      os.path.join(root, 'd2', 'foreign.txt'), os.path.join(root, 'd3'),
                      os.path.join(root, 'd3', 'o3.txt'), os.path.join(root, 'new'),
-                     os.path.join(root, 'new', 'n.txt'), os.path.join(root, 'nope'), cache]
+                     os.path.join(root, 'new', 'n.txt'), os.path.join(root, 'nope'), cache,
+                     # paths below a regular file "do not exist"
+                     os.path.join(root, 'in', 'a.txt', 'below'),
+                     os.path.join(root, 'd2', 'foreign.txt', 'x', 'y')]
             for p in paths:
                 n += 1
                 f, d, e = b.is_file(p), b.is_dir(p), b.exists(p)
@@ -566,6 +569,8 @@ def view_cases(req):
                     r = 'IsADirectoryError'
                 except FileNotFoundError:
                     r = 'FileNotFoundError'
+                except OSError as e_:
+                    r = type(e_).__name__
                 exp = 'ok' if f else ('IsADirectoryError' if d else 'FileNotFoundError')
                 if r != exp:
                     problems.append((label, p, 'read gave %s but is_file=%s is_dir=%s' % (r, f, d)))
@@ -907,14 +912,40 @@ def rollback_cases(req):
             b.subbuild('sub', sub)
         FileBuilder.build(cache, 'n', f)
 
+    # 7. directory P of the previous build was replaced by a foreign file; build_file(P) fails and
+    #    is caught, build_file(P/q) then makes P a directory again, and the build raises
+    def prep7(root):
+        cache = os.path.join(root, 'c.gz')
+        FileBuilder.build(cache, 'n', lambda b: b.build_file(os.path.join(root, 'P', 'x.txt'),
+                                                             'mk', mk))
+        shutil.rmtree(os.path.join(root, 'P'))
+        write(os.path.join(root, 'P'), 'foreign file where a directory used to be')
+        return cache
+
+    def fail7(root, cache, boom):
+        def f(b):
+            def bad(b2, filename):
+                raise KeyError('no')
+            try:
+                b.build_file(os.path.join(root, 'P'), 'bad', bad)
+            except KeyError:
+                pass
+            b.build_file(os.path.join(root, 'P', 'q.txt'), 'mk', mk)
+            raise boom
+        FileBuilder.build(cache, 'n', f)
+
     cases = [('new outputs and an overwritten foreign file', prep1, fail1),
+             ('foreign file at a former directory; caught failure, then the directory is made '
+              'again by this build', prep7, fail7),
              ('rebuilt output whose old copy was deleted externally', prep2, fail2, ('o',)),
              ('recorded directory replaced by a foreign file', prep3, fail3),
              ('reused and rebuilt outputs, nested failure', prep4, fail4)]
     # the case that exercises the failed obligation first (the others still run)
     label = req.get('label', '')
-    if 'restore_all' in label:
-        cases.insert(0, cases.pop(2))
+    if 'removed-first' in label:
+        pass
+    elif 'restore_all' in label:
+        cases.insert(0, cases.pop(3))
     skip_to_write = 'cache-file-written' in label
     first = None
     for case in cases:
